@@ -20,6 +20,8 @@ THEOREMS = [
     "C41.to_future_cancel_is_final",
     "C41.to_future_done_disposes_source",
     "C41.run_eq_to_future",
+    "C41.run_latch_all_interleavings",
+    "C41.run_latch_no_lost_wakeup",
     "C41.to_async_single_then_complete",
     "C41.to_async_invoked_once",
     "C41.from_callback_one_then_complete",
@@ -95,7 +97,10 @@ def cases(rng, tier):
         yield {"op": "br_run", "via": "await", "xs": xs}
     for _ in range(120 * n):
         xs = gen_notifs(rng)
-        yield {"op": "br_run", "via": rng.choice(["run", "run", "run_method"]), "xs": xs, "emit": rng.choice(["thread", "thread", "sync", "default_scheduler"])}
+        # model side: a random interleaving of the producer thread and the waiting thread, then the producer to its end
+        sched = [rng.random() < 0.5 for _ in range(rng.choice([0, 3, 8, 20]))] + [True] * (2 * len(xs) + 3)
+        yield {"op": "br_run", "via": rng.choice(["run", "run", "run_method"]), "xs": xs, "emit": rng.choice(["thread", "thread", "sync", "default_scheduler"]),
+               "sched": sched}
     for _ in range(300 * n):
         evs = []
         ran = False
@@ -141,7 +146,7 @@ def model_request(case):
     if op == "br_to_future":
         return {"op": op, "events": case["events"]}
     if op == "br_run":
-        return {"op": op, "xs": case["xs"]}
+        return {"op": op, "xs": case["xs"], "sched": case["sched"]} if "sched" in case else {"op": op, "xs": case["xs"]}
     if op == "br_to_async":
         return {"op": op, "func": case["func"], "events": case["events"]}
     return {"op": op, "args": case["args"], "mapper": case["mapper"], "subs": case["subs"]}
@@ -645,7 +650,9 @@ LEVEL_TEXT = ("Lean theorems over ALL event histories of the bridge models: from
               "or late, any number) its single result then completion, or its exception; from_callback (repaired) emits exactly one value "
               "then completes and passes exactly the given arguments plus its own handler. Tied to the code by differential runs with real "
               "asyncio / concurrent.futures futures, a real event loop, and real threads for run().")
-LEVEL_NOTE = ("Threads and event loops are runtime glue: the models are the callback logic over event histories, the harness covers the glue with "
-              "timeouts ('blocks' = no return within 0.35 s). from_callback is modelled as repaired by "
+LEVEL_NOTE = ("Event loops and thread start-up are runtime glue covered by the harness with timeouts ('blocks' = no return within 0.35 s); run()'s "
+              "latch between the producer thread and the waiting thread IS modelled at atomic-step granularity (RunLatch) and proved for every "
+              "interleaving (the step granularity — single cell reads/writes under the GIL, level-triggered Event — is an assumption, validated only "
+              "by the end-to-end outcome comparison with real threads under random model schedules). from_callback is modelled as repaired by "
               "fixes/C41_from_callback_complete_and_fresh_handler.patch; the three as-is counter-example theorems (mapper: no completion; second "
               "subscription receives two handlers; no callback arguments: TypeError) are on the as-is model and were validated against the pinned tree.")
